@@ -198,7 +198,7 @@ def side_checks(ctx, doc, tmp):
             built = 'built %s' % (obj if isinstance(obj, str) else type(obj).__name__)
         except BaseException as ex:
             obj, built = None, '%s %s' % (type(ex).__name__, ex)
-        called = sorted({c for c, _ in FX._REC})
+        called = sorted({r[0] for r in FX._REC})
         ok = len(called) == 1 or obj == 'self'
         ctx.verdict('UniqueResolution', ok, cls=cls, detail='documented key %s selects observation classes %s (%s)' % (key, called, built), vector=vec)
         if ok and key == 'observed_spectrum':
